@@ -15,6 +15,7 @@
 import logging
 from collections import namedtuple
 from enum import Enum
+from threading import RLock
 
 from casbin.rbac import RoleManager as RM
 from casbin.rbac import ConditionalRoleManager as CRM
@@ -93,10 +94,28 @@ class Role:
         return list(params) if params is not None else []
 
 
+class _CreationLock:
+    """guards the lazy creations of a role manager: queries create the role object of a new name (and the manager of a new
+    domain), and queries may run at the same time (SyncedEnforcer read lock). Re-entrant; a copy of the manager gets its own."""
+
+    def __init__(self):
+        self._lock = RLock()
+
+    def __enter__(self):
+        return self._lock.__enter__()
+
+    def __exit__(self, *args):
+        return self._lock.__exit__(*args)
+
+    def __reduce__(self):
+        return (_CreationLock, ())
+
+
 class RoleManager(RM):
     """provides a default implementation for the RoleManager interface"""
 
     def __init__(self, max_hierarchy_level=10):
+        self._creation_lock = _CreationLock()
         self.logger = logging.getLogger("casbin.role")
         self.max_hierarchy_level = max_hierarchy_level
         self.matching_func = None
@@ -131,13 +150,18 @@ class RoleManager(RM):
         ]
 
     def _get_role(self, name):
-        if name not in self.all_roles:
-            role = Role(name)
-            if self.matching_func != None:
-                for pattern_role in self._matching_roles(name):
-                    role.copy_from(pattern_role)
-            self.all_roles[name] = role
-        return self.all_roles[name]
+        role = self.all_roles.get(name)
+        if role is None:
+            # one creation at a time, and the role is published only when it is linked completely
+            with self._creation_lock:
+                role = self.all_roles.get(name)
+                if role is None:
+                    role = Role(name)
+                    if self.matching_func != None:
+                        for pattern_role in self._matching_roles(name):
+                            role.copy_from(pattern_role)
+                    self.all_roles[name] = role
+        return role
 
     def add_matching_func(self, fn):
         self.matching_func = fn
@@ -242,6 +266,7 @@ class RoleManager(RM):
 
 class DomainManagerBase(RM):
     def __init__(self, max_hierarchy_level=10):
+        self._creation_lock = _CreationLock()
         self.logger = logging.getLogger("casbin.role")
         self.all_links = dict()
         self.max_hierarchy_level = max_hierarchy_level
@@ -328,10 +353,15 @@ class DomainManager(DomainManagerBase):
 
     def _get_role_manager(self, *domain):
         domain1 = self._get_domain(*domain)
-        if domain1 not in self.rm_map:
-            self.rm_map[domain1] = super()._get_role_manager(*domain)
+        rm = self.rm_map.get(domain1)
+        if rm is None:
+            with self._creation_lock:
+                rm = self.rm_map.get(domain1)
+                if rm is None:
+                    rm = super()._get_role_manager(*domain)
+                    self.rm_map[domain1] = rm
 
-        return self.rm_map[domain1]
+        return rm
 
     def _affected_role_managers(self, *domain):
         domain_pattern = self._get_domain(*domain)
@@ -502,10 +532,15 @@ class ConditionalRoleManager(RoleManager, CRM):
 class ConditionalDomainManager(DomainManager, ConditionalRoleManager):
     def _get_role_manager(self, *domain):
         domain1 = self._get_domain(*domain)
-        if domain1 not in self.rm_map:
-            self.rm_map[domain1] = self._get_conditional_role_manager(*domain)
+        rm = self.rm_map.get(domain1)
+        if rm is None:
+            with self._creation_lock:
+                rm = self.rm_map.get(domain1)
+                if rm is None:
+                    rm = self._get_conditional_role_manager(*domain)
+                    self.rm_map[domain1] = rm
 
-        return self.rm_map[domain1]
+        return rm
 
     def _get_conditional_role_manager(self, *domain, store=False):
         domain1 = self._get_domain(*domain)
